@@ -2,7 +2,7 @@
 decides obligations with z3, replays counterexamples on the plain build, matches known findings, writes evidence."""
 import json, os, sys, time, re, shutil, traceback, resource
 from concurrent.futures import ProcessPoolExecutor, as_completed
-import build, fpsym
+import build, fpsym, kengine
 
 VERIF = build.VERIF
 
@@ -186,7 +186,7 @@ def match_known(prop, cfgname, prob, known):
     return None
 
 
-def run_property(prop, configs, tier, seed, meta):
+def run_property(prop, configs, tier, seed, meta, kconfigs=()):
     """meta: dict(functions_encoded, bounds, assumptions, explanation, rule)"""
     t0 = time.time()
     os.makedirs(os.path.join(VERIF, 'evidence'), exist_ok=True)
@@ -196,19 +196,19 @@ def run_property(prop, configs, tier, seed, meta):
         print('INCONCLUSIVE property=%s cannot build/encode the library: %s' % (prop, str(e)[-1500:]))
         write_evidence(prop, tier, seed, [], meta, time.time() - t0, 0, ['library build failed: ' + str(e)[-500:]], [])
         return 2
-    jobs = min(build.JOBS, max(1, len(configs)))
+    jobs = min(build.JOBS, max(1, len(configs) + len(kconfigs)))
     results = []
     # every configuration runs in its own process under a hard wall-clock limit (a solver call that ignores its timeout
     # must not stall the check: the configuration is then reported as inconclusive)
     import multiprocessing as mp
     ctx = mp.get_context('fork')
-    pending = list(configs); running = []   # (process, conn, cfg, t_start, limit)
+    pending = list(configs) + list(kconfigs); running = []   # (process, conn, cfg, t_start, limit)
     def blank(c, why):
         return {'config': c.name, 'harness': c.harness, 'args': c.args, 'paths': 0, 'obligations': 0, 'discharged': 0, 'nontrivial': 0, 'checks': 0,
                 'problems': [], 'inconclusive': [{'what': why}], 'assumed_away': 0, 'coverage_complete': False, 'samples': [], 'notes': {}, 'methods': {}, 'wall': 0, 'stats': {}}
     def worker(conn, c):
         try:
-            conn.send(run_config(prop, c, tier, seed))
+            conn.send(kengine.run_k(c) if isinstance(c, kengine.KConfig) else run_config(prop, c, tier, seed))
         except Exception as e:
             conn.send(blank(c, 'worker exception: %s' % str(e)[-500:]))
         conn.close()
